@@ -18,7 +18,7 @@ RULE = ('cases = index expressions for TT tensors of order 1..3 (thorough: 4) ov
 ASSUMPTIONS = ['index expressions the library documents as unsupported (short tuples without Ellipsis, Ellipsis in the middle, mixed int/slice pairs on operators, '
                'negative steps) are outside this workload - they must raise (C18)']
 REQUIRED_REACH = ['_tt_base:TT.__getitem__', '_tt_base:TT.reduce_dims', '_aux_ops:apply_mask', '_tt_base:TT.apply_mask']
-REQUIRED_COUNTS = {'branch:tuple/tensor': 1, 'branch:tuple/operator': 1, 'branch:bare-int': 1, 'branch:bare-slice': 1, 'branch:bare-ellipsis': 1,
+REQUIRED_COUNTS = {'history_value_checks': 200, 'branch:tuple/tensor': 1, 'branch:tuple/operator': 1, 'branch:bare-int': 1, 'branch:bare-slice': 1, 'branch:bare-ellipsis': 1,
                    'branch:ellipsis-leading': 1, 'branch:ellipsis-trailing': 1, 'branch:none': 1, 'apply_mask/M=1': 1, 'apply_mask/M>1': 1,
                    'kind:len1-slice': 1, 'kind:negative-int': 1, 'kind:stepped': 1, 'kind:singleton-mode': 1, 'exact_comparisons': 100}
 LINE_FUNCS = ['TT.__getitem__', 'TT.reduce_dims', 'apply_mask']
@@ -129,6 +129,8 @@ def cases(tier, seed):
         N = [rng.choice((1, 2, 3, 4)) for _ in range(d)]
         cs.append({'gen': 'mask', 'N': N, 'R': gens.rank_profile(rng, d, 'rand', 3), 'Mrows': [1, 2, 7, 1, 30][i % 5], 'exhaustive': i % 7 == 0,
                    'dtype': ['f64', 'f32', 'c128'][i % 3], 'vals': 'int'})
+    from .. import hist
+    cs += hist.cases(PROP, tier, seed)
     return cs
 
 
@@ -169,6 +171,11 @@ def kinds_of(tokens, sizes):
 def run_case(case, ctx):
     g = gens.tgen(case['seed'])
     globals()['run_' + case['gen']](case, ctx, g)
+
+
+def run_hist(case, ctx, g):
+    from .. import hist
+    hist.run(PROP, case, ctx)
 
 
 def _check_index(ctx, case, x, dx, index, tokens, sizes, kindname, srep):
